@@ -771,6 +771,9 @@ func (vc *FnVC) wfHeap(st *State, key string) string {
 			return "true"
 		}
 		return fmt.Sprintf("(forall ((r Int) (k %s)) (! (=> (<= (ref.root r) %s) (and (<= (s.base (select (select %s r) k)) %s) (<= (ref.root (s.base (select (select %s r) k))) %s))) :pattern ((select (select %s r) k))))", ks, a, t, a, t, a, t)
+	case ki.Sort == "(Array Int Iface)":
+		// the dynamic value of an interface stored in an allocated cell was allocated before now (boxed scalars are negative)
+		return fmt.Sprintf("(forall ((r Int)) (! (=> (<= (ref.root r) %s) (<= (i.pay (select %s r)) %s)) :pattern ((select %s r))))", a, t, a, t)
 	case ki.Sort == "(Array Int Int)" && (ki.Ref || strings.HasPrefix(ki.GoType, "*") || strings.HasPrefix(ki.GoType, "map[")):
 		return fmt.Sprintf("(forall ((r Int)) (! (=> (<= (ref.root r) %s) (and (<= (select %s r) %s) (<= (ref.root (select %s r)) %s))) :pattern ((select %s r))))", a, t, a, t, a, t)
 	}
